@@ -94,6 +94,9 @@ static bool gen_c20(uint64_t seed, const std::string &tier, uint64_t i, Plan &p)
       if (surface == 5) { Json zone = Json::obj(); Json fail = Json::obj(); std::string kind = r.pick(std::vector<std::string>{"grow", "grow", "shrink", "loop", "cut", "counts", "big", "rdlen", "trunc", "junk", "edge", "edge"}); fail.set("r.example", "garbled:" + kind); zone.set("fail", fail); p.knobs.set("zone", zone); p.label = "qmail-remote garbled dns (" + kind + ")"; }
       else { p.knobs.set("smtproutes", routes); p.label = "qmail-remote hostile server"; }
       if (r.chance(0.15)) { std::string l; int n = (int)r.pick(std::vector<int>{5, 9, 100, 1000}); for (int q = 0; q < n; q++) l += (q ? "." : "") + std::to_string(r.below(256)); p.knobs.erase("smtproutes"); p.knobs.set("host", "[" + l + "]"); p.label = "qmail-remote literal host with " + std::to_string(n) + " components"; }
+      // the host does not answer at all and the table of such hosts is full or short (the table is the package's own state, written by
+      // qmail-remote only: arbitrary bytes in it are not an input of the property)
+      if (surface == 4 && r.chance(0.25)) { hosts = Json::obj(); hosts.set(std::to_string(0x0a010101), Json::obj().set("kind", "timeout")); p.knobs.set("hosts", hosts).set("timeoutconnect", 5).set("tcpto_table", r.pick(std::vector<std::string>{"full", "full", "partial", "odd"})); p.label = "qmail-remote: timeout with tcpto table " + p.knobs.gets("tcpto_table"); }
       alloc_fault(r, p, "qmail-remote"); break; }
     case 6: {   // helpers: clean requests, spawner commands, corrupt cdb
       p.world = "H"; int k = (int)r.below(3);
